@@ -85,4 +85,28 @@ PROPS = {
             "zero-length caller buffers are outside the theorems (FixedReader::read(&mut []) reports truncation on a non-empty remaining body)",
         ],
     },
+    'C10': {
+        'streams': ['conn10'],
+        'shrink': {},
+        'assumptions': [
+            "the inbound TCP stream is a list of segments; a read returns at most one segment (the harness delivers a segment only when the server thread is blocked and has consumed the previous one)",
+            "'never buffers more than N bytes' is proved on the model (C10_buffer_bound); on the code only its consequences (431 exactly at N) are observed",
+        ],
+    },
+    'C09': {
+        'streams': ['conn09'],
+        'shrink': {},
+        'assumptions': [
+            "handlers are the harness application (respond / respond with close / Err / respond then Err / read body); the pre-routing hook answers or proceeds",
+            "socket timeouts are not modelled",
+        ],
+    },
+    'C05': {
+        'streams': ['conn05'],
+        'shrink': {},
+        'assumptions': [
+            "the RFC 9112 6.3 decision is rfc_framing (Spec/Framing.v) over the raw field lines; a lock-step client sends exactly the body its own framing announces",
+            "as C10 for the connection driver",
+        ],
+    },
 }
